@@ -332,6 +332,22 @@ def run(ctx, n_override=None):
         res.count('kind:lot-merge')
         if first and (first[1] or first[2]):
             res.nontrivial.add(hashlib.sha256(text.encode('utf-8', 'surrogateescape') + ' '.join(cmd).encode()).hexdigest())
+    # directed (the sites Gen/OrderSites.v lists as depending on the table order): a balance of 2-6 commodities compared with a
+    # commoditized amount (value.cc is_less_than / is_greater_than: the entry met first decides between `false` and the
+    # error naming the other commodity), and top_amount of such a balance (report.cc: amounts.begin()); oracle: one input,
+    # one result - over the layouts AND it is what the property text asks, so a difference is reported under its own key
+    syms = ['EUR', 'USD', 'GBP', 'CHF', 'AAA', 'Q', 'XAU', 'BTC', 'JPY']
+    for k_ in range(ctx.scale(10, 60)):
+        cs = rng.sample(syms, rng.randrange(2, 7))
+        terms = ' + '.join('%d %s' % (rng.randrange(1, 9), c) for c in cs)
+        if k_ % 2 == 0:
+            expr, tag_ = '(%s) %s %d %s' % (terms, rng.choice(['<', '>', '<=', '>=']), rng.randrange(1, 9), rng.choice(cs)), 'bal-cmp-commoditized'
+        else:
+            expr, tag_ = 'top_amount(%s)' % terms, 'top-amount-of-balance'
+        first = run_case(ctx, res, tag_, '', ['eval', expr], nlay)
+        res.count('kind:' + tag_)
+        if first and (first[1] or first[2]):
+            res.nontrivial.add(hashlib.sha256(expr.encode()).hexdigest())
     # value expressions through the REPL under the same layouts
     c03 = importlib.import_module('props.c03')
     trees = [c03.gen_tree(rng, rng.choice([2, 3, 4]), rng.sample(c03.SYMS, 2), False) for _ in range(40)]
